@@ -287,6 +287,48 @@ def relax_model(ctx):
                'previous one returned, a phase stops when the largest image displacement per unit time falls below the tolerance, and the last path is returned' % tag, bool(ok), 'steps taken %s' % got, node=relax, key='relax ' + tag)
 
 
+def relax_criterion(ctx):
+    """both phases of relax() stop on the same quantity, the largest image displacement *per unit time* (for the climbing image that is |grad E| at the saddle): a model
+    string whose displacements restart when climbing begins, stepped with timestep 1/4, tells the rate from the raw displacement in either loop"""
+    cls = ctx.fn(ISM, 'ISMPath')
+    relax = ctx.fn(ISM, 'ISMPath.relax')
+    loc = ISM + '::ISMPath.relax'
+    aliases = module_aliases(ctx.mod(ISM))
+    R = sp.Rational
+    C0 = np.array([[R(0), R(0)], [R(1), R(0)], [R(2), R(0)]], dtype=object)
+    D = np.array([[R(0), R(1)], [R(0), R(0)], [R(0), R(-1, 2)]], dtype=object)
+    EN = [0, 1, 3, 1, 0]
+    h = R(1, 4)
+    calls = []
+
+    def mkpath(s_, nr, nc):
+        def step(timestep=None, climbindex=None):
+            calls.append((timestep, None if climbindex is None else [int(v) for v in np.ravel(climbindex)]))
+            if climbindex is None:
+                return mkpath(s_ + R(1, 2 ** (nr + 1)), nr + 1, nc)        # relaxation: displacements 1/2, 1/4, 1/8, ...
+            return mkpath(s_ + R(1, 2 ** (nc + 4)), nr, nc + 1)             # climbing: displacements restart at 1/16, 1/32, ...
+        return SymObj(cls, {'coord': C0 + s_ * D, 'step': step, 'energy': (lambda: arr([R(e) for e in EN])), 'default_timestep': R(1, 100), 'default_tolerance': R(1, 10 ** 6)}, 'path')
+
+    class T(PyStub):
+        def time(self):
+            return sp.Integer(0)
+    ev = SymEval(aliases)
+    ev.globals = {'time': T()}
+    try:
+        r = [q for q in ev.run_fn(relax, [mkpath(R(0), 0, 0)], dict(relaxsteps=20, climbsteps=20, timestep=h, tolerance=R(1, 10), climbpoints=1, verbose=False)) if q.done == 'return']
+    except (Opaque, WouldRaise) as e:
+        raise AnalysisError('ISMPath.relax on the model path (timestep 1/4): %s' % e)
+    ctx.need(len(r) == 1, 'ISMPath.relax does not reduce to one path (timestep 1/4)')
+    nrel = len([c for c in calls if c[1] is None])
+    nclimb = len([c for c in calls if c[1] is not None])
+    # rates: relaxation 2, 1, 1/2, 1/4, 1/8, 1/16 (< 1/10 at the sixth step); climbing 1/4, 1/8, 1/16 (< 1/10 at the third step)
+    ctx.ob('STRING-STEP', loc, 'timestep 1/4, tolerance 1/10: the relaxation phase stops when the displacement per unit time (not the raw displacement) falls below the tolerance: six steps', nrel == 6, '%d relaxation steps' % nrel,
+           node=relax, key='relax criterion plain')
+    ctx.ob('STRING-STEP', loc, 'timestep 1/4, tolerance 1/10: the climbing phase stops on the same quantity, the displacement per unit time: three climbing steps', nclimb == 3, '%d climbing steps' % nclimb,
+           node=relax, key='relax criterion climbing')
+    ctx.ob('STRING-STEP', loc, 'timestep 1/4: every step is taken with the requested timestep', all(c[0] == h for c in calls) and bool(calls), node=relax, key='relax criterion timestep')
+
+
 def float_buffers(ctx):
     """gradients and tangents are written into buffers; the buffers are float for coordinates given as whole numbers too"""
     dtypeflow.float_buffers(ctx, 'FLOAT-BUFFERS', CD, 'central_difference', floor=1, what='the difference quotients')
@@ -300,4 +342,4 @@ def run(ctx):
                        'cubic and its error expanded in the step; default-argument feasibility is a contradiction rule on the constructors; '
                        'the string step\'s rate laws, tangents and image selection are extracted and compared with the documented formulas. '
                        'Not decided: convergence to the minima/saddle.')
-    ctx.run_rules([lambda c: linear_order(c, EU, 'euler', 1), lambda c: linear_order(c, RK, 'rungekutta', 4), cdiff, default_feasible, string_step, pure_step, step_model, relax_model, float_buffers])
+    ctx.run_rules([lambda c: linear_order(c, EU, 'euler', 1), lambda c: linear_order(c, RK, 'rungekutta', 4), cdiff, default_feasible, string_step, pure_step, step_model, relax_model, relax_criterion, float_buffers])
